@@ -389,3 +389,12 @@ Theorem C14_dropped_frame_dependent :
     @pair_angle NumR Dropped (@symmetry_operations NumR Orthorhombic) q1 q2 = 0 /\
     0 < @pair_angle NumR Dropped (@symmetry_operations NumR Orthorhombic) (hmul q1 r) (hmul q2 r).
 Proof. exact dropped_frame_dependent. Qed.
+
+(* the symmetry clause fails of it too: a grain q and its symmetry-equivalent copy k q (half turn about the
+   crystal z axis, an operator of the list) are not at misorientation angle 0 *)
+Theorem C14_dropped_symmetry_dependent :
+  exists q u : Q4, qnorm2 q = 1 /\ qnorm2 u = 1 /\
+    In (@Rot NumR u) (@symmetry_operations NumR Orthorhombic) /\
+    @pair_angle NumR Dropped (@symmetry_operations NumR Orthorhombic) q q = 0 /\
+    0 < @pair_angle NumR Dropped (@symmetry_operations NumR Orthorhombic) (hmul u q) q.
+Proof. exact dropped_symmetry_dependent. Qed.
